@@ -8,7 +8,9 @@ def wfxScalesFromSource : Bool := true
 /-- molden.py: coefficient rows re-ordered like the `[GTO]` shells sorted by centre -/
 def moldenRowsFollowSort : Bool := false
 /-- molekel.py: beta irreps sliced with `norbb` -/
-def mklBetaIrrepsUseNorbb : Bool := true
+def mklBetaIrrepsUseNorbb : Bool := false
+/-- molekel.py: shells written sorted by centre with one `$$` per centre passed, rows following -/
+def mklSeparatorsPerCentre : Bool := false
 /-- fchk.py: density matrices converted to the FCHK conventions -/
 def fchkDensitiesConverted : Bool := false
 end Iodata.Gen.Wf
